@@ -235,4 +235,436 @@ theorem tdxQuote_ok_iff (C : Crypto) (w : World) (q : Option QuoteV4) (o : Opts)
               rw [← fetchStage_ok_iff, hf] at h5; cases h5
               exact h6
 
+
+/-! ### reading the check lists -/
+
+/-- `validateCertificate(cert, parent, phrase)` succeeded -/
+structure CertOk (c p : CertF) (phrase : String) : Prop where
+  version : c.version = 3
+  sigAlg : c.sigAlgOk = true
+  pkAlg : c.pkAlgOk = true
+  curve : c.curveOk = true
+  name : c.subjectCN = phrase
+  issuer : c.issuer = p.subject
+  signed : sigFrom c p = true
+
+theorem validateCertificate_all (c p : CertF) (phrase : String) :
+    (∀ x ∈ validateCertificate c p phrase, x.1 = true) ↔ CertOk c p phrase := by
+  unfold validateCertificate
+  simp only [List.mem_cons, List.not_mem_nil, or_false, forall_eq_or_imp, forall_eq, beq_iff_eq]
+  constructor
+  · rintro ⟨a, b, c', d, e, f, g⟩; exact ⟨a, b, c', d, e, f, g⟩
+  · intro h; exact ⟨h.version, h.sigAlg, h.pkAlg, h.curve, h.name, h.issuer, h.signed⟩
+
+/-- `validateCRL(crl, cert)` succeeded -/
+structure CrlOk (crl : CrlF) (c : CertF) : Prop where
+  issuer : crl.issuer = c.subject
+  signed : c.canSignCrl = true ∧ crl.signedBy = c.keyId ∧ c.keyId ≠ 0
+
+theorem validateCRL_all (crl : CrlF) (c : CertF) : (∀ x ∈ validateCRL crl c, x.1 = true) ↔ CrlOk crl c := by
+  unfold validateCRL
+  simp only [List.mem_cons, List.not_mem_nil, or_false, forall_eq_or_imp, forall_eq, beq_iff_eq, Bool.and_eq_true,
+    bne_iff_ne, ne_eq]
+  constructor
+  · rintro ⟨a, ⟨b, c'⟩, d⟩; exact ⟨a, b, c', d⟩
+  · intro h; exact ⟨h.issuer, ⟨h.signed.1, h.signed.2.1⟩, h.signed.2.2⟩
+
+/-- the revocation part of `verifyPCKCertificationChain` -/
+structure ChainRevocationOk (w : World) (ch : Chain) (col : Option Collateral) : Prop where
+  witness : ∃ c rootCrl cs crt pckCrl, col = some c ∧ c.rootCrl = some rootCrl ∧ c.pckCrl = some (cs, crt, pckCrl) ∧
+    CrlOk rootCrl (cert w ch.root) ∧ CrlOk pckCrl (cert w ch.inter) ∧ pckCrl.issuer = (cert w ch.leaf).issuer ∧
+    (cert w ch.inter).serial ∉ rootCrl.revoked ∧ (cert w ch.leaf).serial ∉ pckCrl.revoked
+
+/-- `verifyPCKCertificationChain` succeeded -/
+structure ChainOk (w : World) (ch : Chain) (o : Opts) (T : TimeSet) (col : Option Collateral) : Prop where
+  root : CertOk (cert w ch.root) (cert w ch.root) verify_rootCertPhrase
+  inter : CertOk (cert w ch.inter) (cert w ch.root) verify_intermediateCertPhrase
+  leaf : CertOk (cert w ch.leaf) (cert w ch.inter) verify_pckCertPhrase
+  anchored : pathValid w (effectiveRoots w) (some ch.inter) ch.leaf T.pckCertChain = true
+  revocation : o.checkRevocations = true → o.getCollateral = true ∧ ChainRevocationOk w ch col
+  rootInDate : T.pckCertChain ≤ (cert w ch.root).notAfter
+  interInDate : T.pckCertChain ≤ (cert w ch.inter).notAfter
+  leafInDate : T.pckCertChain ≤ (cert w ch.leaf).notAfter
+
+theorem chainChecks_all (w : World) (ch : Chain) (o : Opts) (T : TimeSet) (col : Option Collateral)
+    (h : ∀ x ∈ chainChecks w ch o T col, x.1 = true) : ChainOk w ch o T col := by
+  unfold chainChecks at h
+  simp only [List.mem_append, List.mem_cons, List.not_mem_nil, or_false] at h
+  have hroot := (validateCertificate_all _ _ _).mp fun x hx => h x (Or.inl (Or.inl (Or.inl (Or.inl (Or.inl hx)))))
+  have hinter := (validateCertificate_all _ _ _).mp fun x hx => h x (Or.inl (Or.inl (Or.inl (Or.inl (Or.inr hx)))))
+  have hleaf := (validateCertificate_all _ _ _).mp fun x hx => h x (Or.inl (Or.inl (Or.inl (Or.inr hx))))
+  have hanch := h _ (Or.inl (Or.inl (Or.inr rfl)))
+  have h1 := h _ (Or.inr (Or.inl rfl))
+  have h2 := h _ (Or.inr (Or.inr (Or.inl rfl)))
+  have h3 := h _ (Or.inr (Or.inr (Or.inr rfl)))
+  simp only [decide_eq_true_eq] at h1 h2 h3
+  refine ⟨hroot, hinter, hleaf, hanch, ?_, h1, h2, h3⟩
+  intro hcr
+  have hrev : ∀ x ∈ (if o.getCollateral then
+      match col.bind (·.rootCrl), col.bind (·.pckCrl) with
+      | some rootCrl, some (_, _, pckCrl) =>
+        validateCRL rootCrl (cert w ch.root) ++ validateCRL pckCrl (cert w ch.inter) ++
+        [(pckCrl.issuer == (cert w ch.leaf).issuer, "pck crl issuer vs leaf issuer"),
+         (!rootCrl.revoked.contains (cert w ch.inter).serial, "intermediate revoked"),
+         (!pckCrl.revoked.contains (cert w ch.leaf).serial, "leaf revoked")]
+      | _, _ => [(false, "crl missing")]
+    else [(false, "revocation without collateral")]), x.1 = true := by
+    intro x hx
+    refine h x (Or.inl (Or.inr ?_))
+    simp only [hcr, ↓reduceIte]
+    exact hx
+  by_cases hg : o.getCollateral = true
+  · refine ⟨hg, ?_⟩
+    simp only [hg, ↓reduceIte] at hrev
+    cases col with
+    | none => simpa using hrev (false, "crl missing") (by simp)
+    | some c =>
+      simp only [Option.bind_some] at hrev
+      cases hr : c.rootCrl with
+      | none => rw [hr] at hrev; simpa using hrev (false, "crl missing") (by simp)
+      | some rootCrl =>
+        cases hp : c.pckCrl with
+        | none => rw [hr, hp] at hrev; simpa using hrev (false, "crl missing") (by simp)
+        | some t =>
+          obtain ⟨cs, crt, pckCrl⟩ := t
+          rw [hr, hp] at hrev
+          simp only [List.mem_append, List.mem_cons, List.not_mem_nil, or_false] at hrev
+          have a := (validateCRL_all _ _).mp fun x hx => hrev x (Or.inl (Or.inl hx))
+          have b := (validateCRL_all _ _).mp fun x hx => hrev x (Or.inl (Or.inr hx))
+          have c1 := hrev _ (Or.inr (Or.inl rfl))
+          have c2 := hrev _ (Or.inr (Or.inr (Or.inl rfl)))
+          have c3 := hrev _ (Or.inr (Or.inr (Or.inr rfl)))
+          simp only [beq_iff_eq, Bool.not_eq_true', List.contains_eq_mem, decide_eq_false_iff_not] at c1 c2 c3
+          exact ⟨c, rootCrl, cs, crt, pckCrl, rfl, hr, hp, a, b, c1, c2, c3⟩
+  · have hg' : o.getCollateral = false := by simpa using hg
+    simp only [hg', Bool.false_eq_true, ↓reduceIte] at hrev
+    simpa using hrev (false, "revocation without collateral") (by simp)
+
+theorem inWindow_iff (c : CertF) (t : Int) : inWindow c t = true ↔ c.notBefore ≤ t ∧ t ≤ c.notAfter := by
+  unfold inWindow; simp
+
+/-- `parent` certifies `child`: issuer name, signature, and the parent may sign certificates -/
+def Certifies (p c : CertF) : Prop := c.issuer = p.subject ∧ sigFrom c p = true
+
+/-- what `x509.Certificate.Verify` established -/
+inductive PathOk (w : World) (roots : List Nat) (inter : Option Nat) (c : Nat) (t : Int) : Prop where
+  | isRoot (h : c ∈ roots)
+  | direct (r : Nat) (hr : r ∈ roots) (hc : Certifies (cert w r) (cert w c)) (hw : inWindow (cert w r) t = true)
+  | viaInter (i : Nat) (hi : inter = some i) (hne : i ≠ c) (hc : Certifies (cert w i) (cert w c)) (hwi : inWindow (cert w i) t = true)
+      (top : i ∈ roots ∨ ∃ r ∈ roots, Certifies (cert w r) (cert w i) ∧ inWindow (cert w r) t = true)
+
+theorem pathValid_iff (w : World) (roots : List Nat) (inter : Option Nat) (c : Nat) (t : Int) :
+    pathValid w roots inter c t = true ↔ inWindow (cert w c) t = true ∧ PathOk w roots inter c t := by
+  unfold pathValid
+  simp only [Bool.and_eq_true, Bool.or_eq_true, List.contains_eq_mem, decide_eq_true_eq, List.any_eq_true, beq_iff_eq]
+  constructor
+  · rintro ⟨hw, (h | ⟨r, hr, ⟨h1, h2⟩, h3⟩) | h⟩
+    · exact ⟨hw, .isRoot h⟩
+    · exact ⟨hw, .direct r hr ⟨h1, h2⟩ h3⟩
+    · cases inter with
+      | none => simp at h
+      | some i =>
+        simp only [Bool.and_eq_true, bne_iff_ne, ne_eq, beq_iff_eq, Bool.or_eq_true, List.contains_eq_mem, decide_eq_true_eq,
+          List.any_eq_true] at h
+        obtain ⟨⟨⟨⟨hne, h1⟩, h2⟩, h3⟩, h4⟩ := h
+        refine ⟨hw, .viaInter i rfl hne ⟨h1, h2⟩ h3 ?_⟩
+        rcases h4 with h4 | ⟨r, hr, ⟨a, b⟩, c'⟩
+        · exact Or.inl h4
+        · exact Or.inr ⟨r, hr, ⟨a, b⟩, c'⟩
+  · rintro ⟨hw, hp⟩
+    refine ⟨hw, ?_⟩
+    cases hp with
+    | isRoot h => exact Or.inl (Or.inl h)
+    | direct r hr hc hw' => exact Or.inl (Or.inr ⟨r, hr, ⟨hc.1, hc.2⟩, hw'⟩)
+    | viaInter i hi hne hc hwi top =>
+      subst hi
+      refine Or.inr ?_
+      simp only [Bool.and_eq_true, bne_iff_ne, ne_eq, beq_iff_eq, Bool.or_eq_true, List.contains_eq_mem, decide_eq_true_eq,
+        List.any_eq_true]
+      refine ⟨⟨⟨⟨hne, hc.1⟩, hc.2⟩, hwi⟩, ?_⟩
+      rcases top with h | ⟨r, hr, hc', hw'⟩
+      · exact Or.inl h
+      · exact Or.inr ⟨r, hr, ⟨hc'.1, hc'.2⟩, hw'⟩
+
+
+/-! ### what `obtainCollateral` returned -/
+
+theorem getRootCrl_some (w : World) (dps : List String) (crl : CrlF) (h : (getRootCrl w dps).2 = some crl) :
+    ∃ u ∈ dps, w.fetchRootCrl u = some (some crl) := by
+  induction dps with
+  | nil => simp [getRootCrl] at h
+  | cons u rest ih =>
+    unfold getRootCrl at h
+    cases hf : w.fetchRootCrl u with
+    | none =>
+      simp only [hf] at h
+      obtain ⟨u', hu', h'⟩ := ih h
+      exact ⟨u', List.mem_cons_of_mem _ hu', h'⟩
+    | some r =>
+      cases r with
+      | none =>
+        simp only [hf] at h
+        obtain ⟨u', hu', h'⟩ := ih h
+        exact ⟨u', List.mem_cons_of_mem _ hu', h'⟩
+      | some crl' =>
+        simp only [hf, Option.some.injEq] at h
+        subst h
+        exact ⟨u, List.mem_cons_self .., hf⟩
+
+/-- a response that was used: fetched, one issuer-chain header value with signer and root, JSON body whose exact
+    member exists and decodes; the values that drive the verdict are the decode of that raw member -/
+structure ResponseUsed {Doc : Type} (f : FetchF (BodyF Doc)) (signer root : Nat) (doc : Doc) (sig : String) (raw : Bytes) (zero : Bool) : Prop where
+  witness : ∃ h b, f = .resp h b ∧ headerToIssuerChain h = .ok (signer, root) ∧ b.structOk = true ∧ b.raw = some raw ∧
+    b.rawDoc = some doc ∧ b.signature = sig ∧ b.zero = zero
+
+theorem bodyValues_ok {Doc : Type} (b : BodyF Doc) (d : Doc) (sig : String) (raw : Bytes) (z : Bool)
+    (h : bodyValues Fixes.all b = .ok (d, sig, raw, z)) :
+    b.structOk = true ∧ b.raw = some raw ∧ b.rawDoc = some d ∧ b.signature = sig ∧ b.zero = z := by
+  unfold bodyValues at h
+  cases hs : b.structOk with
+  | false => simp [hs] at h
+  | true =>
+    simp only [hs, Bool.not_true, Bool.false_eq_true, ↓reduceIte] at h
+    cases hr : b.raw with
+    | none => simp [hr] at h
+    | some raw' =>
+      simp only [hr] at h
+      have hf6 : Fixes.all.f6 = true := rfl
+      simp only [hf6, ↓reduceIte] at h
+      cases hd : b.rawDoc with
+      | none => simp [hd] at h
+      | some d' =>
+        simp only [hd, Outcome.ok.injEq, Prod.mk.injEq] at h
+        obtain ⟨rfl, rfl, rfl, rfl⟩ := h
+        exact ⟨rfl, rfl, rfl, rfl, rfl⟩
+
+/-- everything `obtainCollateral` established about the collateral it returned -/
+structure Obtained (w : World) (fmspc ca : String) (cr : Bool) (c : Collateral) : Prop where
+  tcb : ResponseUsed (w.fetchTcb (tcbInfoURL fmspc)) c.tcbSigner c.tcbRoot c.tcb c.tcbSig c.tcbRaw c.tcbZero
+  qe : ResponseUsed (w.fetchQe qeIdentityURL) c.qeSigner c.qeRoot c.qe c.qeSig c.qeRaw c.qeZero
+  noCrls : cr = false → c.pckCrl = none ∧ c.rootCrl = none
+  crls : cr = true → ∃ h cs crt pckCrl rootCrl, w.fetchPckCrl (pckCrlURL ca) = .resp h (some pckCrl) ∧
+    headerToIssuerChain h = .ok (cs, crt) ∧ c.pckCrl = some (cs, crt, pckCrl) ∧ c.rootCrl = some rootCrl ∧
+    ∃ u ∈ (cert w c.qeRoot).crlDPs, w.fetchRootCrl u = some (some rootCrl)
+
+/-- what `obtainBase` established -/
+structure BaseObtained (w : World) (fmspc : String) (c : Collateral) : Prop where
+  tcb : ResponseUsed (w.fetchTcb (tcbInfoURL fmspc)) c.tcbSigner c.tcbRoot c.tcb c.tcbSig c.tcbRaw c.tcbZero
+  qe : ResponseUsed (w.fetchQe qeIdentityURL) c.qeSigner c.qeRoot c.qe c.qeSig c.qeRaw c.qeZero
+  noCrls : c.pckCrl = none ∧ c.rootCrl = none
+  urls : (obtainBase Fixes.all w fmspc).1 = [tcbInfoURL fmspc, qeIdentityURL]
+
+theorem obtainBase_ok (w : World) (fmspc : String) (c : Collateral)
+    (h : (obtainBase Fixes.all w fmspc).2 = .ok c) : BaseObtained w fmspc c := by
+  unfold obtainBase at h
+  cases h1 : w.fetchTcb (tcbInfoURL fmspc) with
+  | fail => simp [h1] at h
+  | resp hd1 b1 =>
+    simp only [h1] at h
+    cases h2 : headerToIssuerChain hd1 with
+    | err e => simp [h2] at h
+    | panic => simp [h2] at h
+    | ok p1 =>
+      obtain ⟨ts, tr⟩ := p1
+      simp only [h2] at h
+      cases h3 : bodyValues Fixes.all b1 with
+      | err e => simp [h3] at h
+      | panic => simp [h3] at h
+      | ok v1 =>
+        obtain ⟨tdoc, tsig, traw, tzero⟩ := v1
+        simp only [h3] at h
+        cases h4 : w.fetchQe qeIdentityURL with
+        | fail => simp [h4] at h
+        | resp hd2 b2 =>
+          simp only [h4] at h
+          cases h5 : headerToIssuerChain hd2 with
+          | err e => simp [h5] at h
+          | panic => simp [h5] at h
+          | ok p2 =>
+            obtain ⟨qs, qr⟩ := p2
+            simp only [h5] at h
+            cases h6 : bodyValues Fixes.all b2 with
+            | err e => simp [h6] at h
+            | panic => simp [h6] at h
+            | ok v2 =>
+              obtain ⟨qdoc, qsig, qraw, qzero⟩ := v2
+              simp only [h6, Outcome.ok.injEq] at h
+              subst h
+              obtain ⟨a1, a2, a3, a4, a5⟩ := bodyValues_ok b1 _ _ _ _ h3
+              obtain ⟨b1', b2', b3', b4', b5'⟩ := bodyValues_ok b2 _ _ _ _ h6
+              exact ⟨⟨hd1, b1, h1, h2, a1, a2, a3, a4, a5⟩, ⟨hd2, b2, h4, h5, b1', b2', b3', b4', b5'⟩, ⟨rfl, rfl⟩,
+                by unfold obtainBase; simp only [h1, h2, h3, h4, h5, h6]⟩
+
+/-- what `obtainCrls` established -/
+theorem obtainCrls_ok (w : World) (ca : String) (base c : Collateral) (h : (obtainCrls w ca base).2 = .ok c) :
+    ∃ hd cs crt pckCrl rootCrl, w.fetchPckCrl (pckCrlURL ca) = .resp hd (some pckCrl) ∧
+      headerToIssuerChain hd = .ok (cs, crt) ∧ c = { base with pckCrl := some (cs, crt, pckCrl), rootCrl := some rootCrl } ∧
+      ∃ u ∈ (cert w base.qeRoot).crlDPs, w.fetchRootCrl u = some (some rootCrl) := by
+  unfold obtainCrls at h
+  cases h7 : w.fetchPckCrl (pckCrlURL ca) with
+  | fail => simp [h7] at h
+  | resp hd3 b3 =>
+    simp only [h7] at h
+    cases h8 : headerToIssuerChain hd3 with
+    | err e => simp [h8] at h
+    | panic => simp [h8] at h
+    | ok p3 =>
+      obtain ⟨cs, crt⟩ := p3
+      simp only [h8] at h
+      cases b3 with
+      | none => simp at h
+      | some pckCrl =>
+        simp only at h
+        by_cases hdp : (cert w base.qeRoot).crlDPs.isEmpty = true
+        · simp [hdp] at h
+        · simp only [hdp, Bool.false_eq_true, ↓reduceIte] at h
+          cases h9 : (getRootCrl w (cert w base.qeRoot).crlDPs).2 with
+          | none => simp [h9] at h
+          | some rootCrl =>
+            simp only [h9, Outcome.ok.injEq] at h
+            obtain ⟨u, hu, hfu⟩ := getRootCrl_some w _ _ h9
+            exact ⟨hd3, cs, crt, pckCrl, rootCrl, rfl, h8, h.symm, u, hu, hfu⟩
+
+/-- the two halves of `obtainCollateral` -/
+theorem obtainCollateral_ok_iff (w : World) (fmspc ca : String) (cr : Bool) (c : Collateral) :
+    (obtainCollateral Fixes.all w fmspc ca cr).2 = .ok c ↔
+      ∃ base, (obtainBase Fixes.all w fmspc).2 = .ok base ∧
+        ((cr = false ∧ c = base) ∨ (cr = true ∧ (obtainCrls w ca base).2 = .ok c)) := by
+  unfold obtainCollateral
+  cases hb : (obtainBase Fixes.all w fmspc).2 with
+  | err e => simp
+  | panic => simp
+  | ok base =>
+    simp only [Outcome.ok.injEq, exists_eq_left']
+    cases cr with
+    | false => simp [eq_comm]
+    | true => simp
+
+theorem obtainCollateral_ok (w : World) (fmspc ca : String) (cr : Bool) (c : Collateral)
+    (h : (obtainCollateral Fixes.all w fmspc ca cr).2 = .ok c) : Obtained w fmspc ca cr c := by
+  obtain ⟨base, hb, hc⟩ := (obtainCollateral_ok_iff w fmspc ca cr c).mp h
+  have ob := obtainBase_ok w fmspc base hb
+  rcases hc with ⟨hcr, rfl⟩ | ⟨hcr, hc⟩
+  · exact ⟨ob.tcb, ob.qe, fun _ => ob.noCrls, fun hh => by rw [hcr] at hh; cases hh⟩
+  · obtain ⟨hd, cs, crt, pckCrl, rootCrl, f1, f2, rfl, u, hu, f3⟩ := obtainCrls_ok w ca base c hc
+    exact ⟨ob.tcb, ob.qe, (fun hh => by rw [hcr] at hh; cases hh), (fun _ => ⟨hd, cs, crt, pckCrl, rootCrl, f1, f2, rfl, rfl, u, hu, f3⟩)⟩
+
+/-! ### reading `verifyResponse`, `verifyTCBinfo`, `verifyQeIdentity`, `verifyCollateral` -/
+
+structure ResponseOk (C : Crypto) (w : World) (o : Opts) (rootI signerI : Nat) (raw : Bytes) (sigHex : String)
+    (rootCrl : Option CrlF) (t : Int) : Prop where
+  root : CertOk (cert w rootI) (cert w rootI) verify_rootCertPhrase
+  signer : CertOk (cert w signerI) (cert w rootI) verify_tcbSigningPhrase
+  anchored : pathValid w (effectiveRoots w) none signerI t = true
+  signature : ∃ sig, isHex128 sigHex = some sig ∧ C.verifyCert signerI raw sig = true
+  revocation : o.checkRevocations = true → o.getCollateral = true ∧
+    ∃ crl, rootCrl = some crl ∧ CrlOk crl (cert w rootI) ∧ (cert w signerI).serial ∉ crl.revoked
+
+theorem responseChecks_all (C : Crypto) (w : World) (o : Opts) (rootI signerI : Nat) (raw : Bytes) (sigHex : String)
+    (rootCrl : Option CrlF) (t : Int) (h : ∀ x ∈ responseChecks C w o rootI signerI raw sigHex rootCrl t, x.1 = true) :
+    ResponseOk C w o rootI signerI raw sigHex rootCrl t := by
+  unfold responseChecks at h
+  simp only [List.mem_append, List.mem_cons, List.not_mem_nil, or_false] at h
+  have hroot := (validateCertificate_all _ _ _).mp fun x hx => h x (Or.inl (Or.inl (Or.inl hx)))
+  have hsigner := (validateCertificate_all _ _ _).mp fun x hx => h x (Or.inl (Or.inl (Or.inr hx)))
+  have h1 := h _ (Or.inl (Or.inr (Or.inl rfl)))
+  have h3 := h _ (Or.inl (Or.inr (Or.inr (Or.inr (Or.inl rfl)))))
+  have h4 := h _ (Or.inl (Or.inr (Or.inr (Or.inr (Or.inr rfl)))))
+  simp only at h1 h3 h4
+  refine ⟨hroot, hsigner, h1, ?_, ?_⟩
+  · cases hs : isHex128 sigHex with
+    | none => simp [hs] at h3
+    | some sig => exact ⟨sig, rfl, by simpa [hs] using h4⟩
+  · intro hcr
+    by_cases hg : o.getCollateral = true
+    · refine ⟨hg, ?_⟩
+      cases rootCrl with
+      | none =>
+        have := h (false, "root crl missing") (Or.inr (by simp [hcr, hg]))
+        simp at this
+      | some crl =>
+        have a := (validateCRL_all crl (cert w rootI)).mp fun x hx => h x (Or.inr (by simp [hcr, hg]; exact Or.inl hx))
+        have b := h (!crl.revoked.contains (cert w signerI).serial, "signer revoked") (Or.inr (by simp [hcr, hg]))
+        simp only [Bool.not_eq_true', List.contains_eq_mem, decide_eq_false_iff_not] at b
+        exact ⟨crl, rfl, a, b⟩
+    · have hg' : o.getCollateral = false := by simpa using hg
+      have := h (false, "revocation without collateral") (Or.inr (by simp [hcr, hg']))
+      simp at this
+
+structure TcbInfoOk (C : Crypto) (w : World) (o : Opts) (T : TimeSet) (c : Collateral) : Prop where
+  id : c.tcb.id = verify_tcbInfoID
+  version : c.tcb.version = verify_tcbInfoVersion
+  levels : c.tcb.levels ≠ []
+  response : ResponseOk C w o c.tcbRoot c.tcbSigner c.tcbRaw c.tcbSig c.rootCrl T.tcbInfo
+
+theorem tcbInfoChecks_all (C : Crypto) (w : World) (o : Opts) (T : TimeSet) (c : Collateral)
+    (h : ∀ x ∈ tcbInfoChecks C w o T c, x.1 = true) : TcbInfoOk C w o T c := by
+  unfold tcbInfoChecks at h
+  simp only [List.mem_append, List.mem_cons, List.not_mem_nil, or_false] at h
+  have h1 := h _ (Or.inl (Or.inl rfl))
+  have h2 := h _ (Or.inl (Or.inr (Or.inl rfl)))
+  have h3 := h _ (Or.inl (Or.inr (Or.inr rfl)))
+  simp only [beq_iff_eq, Bool.not_eq_true', List.isEmpty_eq_false_iff] at h1 h2 h3
+  exact ⟨h1, h2, h3, responseChecks_all _ _ _ _ _ _ _ _ _ fun x hx => h x (Or.inr hx)⟩
+
+structure QeIdentityOk (C : Crypto) (w : World) (o : Opts) (T : TimeSet) (c : Collateral) : Prop where
+  id : c.qe.id = verify_qeIdentityID
+  version : c.qe.version = verify_qeIdentityVersion
+  levels : c.qe.levels ≠ []
+  response : ResponseOk C w o c.qeRoot c.qeSigner c.qeRaw c.qeSig c.rootCrl T.qeIdentity
+
+theorem qeIdentityChecks_all (C : Crypto) (w : World) (o : Opts) (T : TimeSet) (c : Collateral)
+    (h : ∀ x ∈ qeIdentityChecks C w o T c, x.1 = true) : QeIdentityOk C w o T c := by
+  unfold qeIdentityChecks at h
+  simp only [List.mem_append, List.mem_cons, List.not_mem_nil, or_false] at h
+  have h1 := h _ (Or.inl (Or.inl rfl))
+  have h2 := h _ (Or.inl (Or.inr (Or.inl rfl)))
+  have h3 := h _ (Or.inl (Or.inr (Or.inr rfl)))
+  simp only [beq_iff_eq, Bool.not_eq_true', List.isEmpty_eq_false_iff] at h1 h2 h3
+  exact ⟨h1, h2, h3, responseChecks_all _ _ _ _ _ _ _ _ _ fun x hx => h x (Or.inr hx)⟩
+
+/-- `verifyCollateral` (presence) and `checkCollateralExpiration` succeeded -/
+structure CollateralInDate (w : World) (o : Opts) (T : TimeSet) (c : Collateral) : Prop where
+  tcb : T.tcbInfo ≤ c.tcb.nextUpdate
+  qe : T.qeIdentity ≤ c.qe.nextUpdate
+  tcbSigner : T.tcbInfo ≤ (cert w c.tcbSigner).notAfter
+  tcbRoot : T.tcbInfo ≤ (cert w c.tcbRoot).notAfter
+  qeRoot : T.qeIdentity ≤ (cert w c.qeRoot).notAfter
+  qeSigner : T.qeIdentity ≤ (cert w c.qeSigner).notAfter
+  crls : o.checkRevocations = true → ∃ rootCrl cs crt pckCrl, c.rootCrl = some rootCrl ∧ c.pckCrl = some (cs, crt, pckCrl) ∧
+    T.rootCaCrl ≤ rootCrl.nextUpdate ∧ T.pckCrl ≤ pckCrl.nextUpdate ∧
+    T.pckCrl ≤ (cert w cs).notAfter ∧ T.pckCrl ≤ (cert w crt).notAfter
+
+theorem collateralChecks_all (w : World) (o : Opts) (T : TimeSet) (c : Collateral)
+    (h : ∀ x ∈ collateralChecks w o T (some c), x.1 = true) : CollateralInDate w o T c := by
+  unfold collateralChecks at h
+  simp only [List.mem_append, List.mem_cons, List.not_mem_nil, or_false] at h
+  have t1 := h _ (Or.inl (Or.inr (Or.inl rfl)))
+  have t2 := h _ (Or.inl (Or.inr (Or.inr (Or.inl rfl))))
+  have t3 := h _ (Or.inl (Or.inr (Or.inr (Or.inr (Or.inl rfl)))))
+  have t4 := h _ (Or.inl (Or.inr (Or.inr (Or.inr (Or.inr (Or.inl rfl))))))
+  have t5 := h _ (Or.inl (Or.inr (Or.inr (Or.inr (Or.inr (Or.inr (Or.inl rfl)))))))
+  have t6 := h _ (Or.inl (Or.inr (Or.inr (Or.inr (Or.inr (Or.inr (Or.inr rfl)))))))
+  simp only [decide_eq_true_eq] at t1 t2 t3 t4 t5 t6
+  refine ⟨t1, t2, t3, t4, t5, t6, ?_⟩
+  intro hcr
+  have hp : ∀ x ∈ [(c.pckCrl.isSome, "pck crl missing"), (c.rootCrl.isSome, "root crl missing")], x.1 = true := by
+    intro x hx
+    refine h x (Or.inl (Or.inl (Or.inr ?_)))
+    simp only [hcr, ↓reduceIte]; exact hx
+  have p1 := hp _ (List.mem_cons_self ..)
+  have p2 := hp _ (List.mem_cons_of_mem _ (List.mem_cons_self ..))
+  obtain ⟨pc, hpc⟩ := Option.isSome_iff_exists.mp p1
+  obtain ⟨rc, hrc⟩ := Option.isSome_iff_exists.mp p2
+  obtain ⟨cs, crt, pckCrl⟩ := pc
+  have hx : ∀ x ∈ [(decide (T.rootCaCrl ≤ rc.nextUpdate), "root crl expired"),
+         (decide (T.pckCrl ≤ pckCrl.nextUpdate), "pck crl expired"),
+         (decide (T.pckCrl ≤ (cert w cs).notAfter), "pck crl signer expired"),
+         (decide (T.pckCrl ≤ (cert w crt).notAfter), "pck crl root expired")], x.1 = true := by
+    intro x hx
+    refine h x (Or.inr ?_)
+    simp only [hcr, ↓reduceIte, hrc, hpc]; exact hx
+  simp only [List.mem_cons, List.not_mem_nil, or_false, forall_eq_or_imp, forall_eq, decide_eq_true_eq] at hx
+  exact ⟨rc, cs, crt, pckCrl, hrc, hpc, hx.1, hx.2.1, hx.2.2.1, hx.2.2.2⟩
+
 end Tdx.Verify
